@@ -124,6 +124,18 @@ var properties = map[string]*Property{
 			"string methods: Index/Slice/Len are compared over an uninterpreted model of strings (same indexing function on both sides)",
 		},
 	},
+	"C26": {
+		ID:    "C26",
+		Title: "The multiline reader splits input losslessly at complete-statement boundaries",
+		Units: []Unit{
+			{Kind: "funcs", Pkg: "base", Funcs: []string{"ReadMultiline"}},
+		},
+		NotCovered: []string{
+			"that the concatenation of the chunks is the input (byte buffers and string conversion are not modelled at that level)",
+			"statement boundaries proper: the line-continuation rules (ignorenl after operators, commas, keywords: lastIsKeywordIgnoresNl), the test that cuts a chunk (it is read off the code, not proved: a chunk is cut only when the mode is code and no bracket is open), '#!' rewriting, prompts, first-token position",
+			"Interp.EvalReader / ReadParseEvalPrint, BufReadline / TtyReadline (assumed: every line handed to the reader ends with a newline unless the input ends)",
+		},
+	},
 	"C28": {
 		ID:    "C28",
 		Title: "Type identity is a total equivalence consistent with type hashing and type maps",
